@@ -200,19 +200,13 @@ func cmdList(args []string) int {
 			// the slow key-store encryption taken out of the window.  (The creations themselves are made one after
 			// the other: the in-memory wallet store of the test fixtures is not safe for concurrent writers - whole
 			// Generate requests at the same time crashed the harness inside that store, not inside Dirk.)
-			if call == 9 && ci < 4 {
+			if call == 9 && ci < 6 {
 				if w, err := node.Fetcher.FetchWallet(ctx, "Wallet 1"); err == nil {
-					if l, ok := w.(e2wtypes.WalletLocker); ok {
-						_ = l.Unlock(ctx, nil)
-					}
-					for batch := 0; batch < 3; batch++ {
-						var made []e2wtypes.Account
-						for j := 0; j < 8; j++ {
-							a, err := w.(e2wtypes.WalletAccountCreator).CreateAccount(ctx, fmt.Sprintf("Burst %d-%d", batch, j), []byte("pass"))
-							if err == nil {
-								made = append(made, a)
-							}
-						}
+					// the accounts come from a pool made once per run (the key-store encryption of a creation is slow):
+					// accounts of a wallet of the same name in a store of its own
+					pool := burstPool(ctx)
+					for batch := 0; batch < 2 && len(pool) >= 48; batch++ {
+						made := pool[24*batch : 24*batch+24]
 						start := make(chan struct{})
 						var cwg sync.WaitGroup
 						for _, a := range made {
@@ -394,4 +388,30 @@ func cmdList(args []string) int {
 		return 2
 	}
 	return 0
+}
+
+// burstPool: 48 accounts of a wallet named "Wallet 1" in a store of its own, created once per run.
+var (
+	burstOnce sync.Once
+	burstAccs []e2wtypes.Account
+)
+
+func burstPool(ctx context.Context) []e2wtypes.Account {
+	burstOnce.Do(func() {
+		w, err := nd.CreateWallet(ctx, "Wallet 1", scratch.New(), keystorev4.New())
+		if err != nil {
+			return
+		}
+		if l, ok := w.(e2wtypes.WalletLocker); ok {
+			_ = l.Unlock(ctx, nil)
+		}
+		for j := 0; j < 48; j++ {
+			a, err := w.(e2wtypes.WalletAccountCreator).CreateAccount(ctx, fmt.Sprintf("Burst %d", j), []byte("pass"))
+			if err != nil {
+				return
+			}
+			burstAccs = append(burstAccs, a)
+		}
+	})
+	return burstAccs
 }
